@@ -660,9 +660,12 @@ def nearest_rank(a, b, poles):
     return sum(1 for p in poles if p["id"] != a["id"] and p["id"] != b["id"] and dist2(a, p) <= d)
 
 
-def classify_pole_failure(case, f, es, roles):
+def classify_pole_failure(case, f, es, roles, s8=False):
     k = f["kind"]
     pole = case.cfg[0]
+    if s8 and k in ("uncovered", "grid-disconnected"):
+        # the decomposition path treats every grid pole as a component of its own and shifts it away
+        return "S8"
     if k == "uncovered":
         by = {e["id"]: e for e in es}
         tp = [p for p in es if p["cls"] == "CPole" and p["name"] == POLE_PROTO[pole]]
@@ -711,7 +714,8 @@ def pole_failures_classified(case):
                 a, b = [p for p in poles if p["id"] == pairs[0][0]][0], [p for p in poles if p["id"] == pairs[0][1]][0]
                 f["unwired_pair_within_reach"] = {"a": describe(a), "b": describe(b), "distance": math.sqrt(dist2(a, b)) / UNIT,
                                                   "nearer_poles_than_partner": [nearest_rank(a, b, poles), nearest_rank(b, a, poles)]}
-    out = [(f, classify_pole_failure(case, f, es, roles)) for f in fs]
+    s8 = bool(fs) and s8_region(case)
+    out = [(f, classify_pole_failure(case, f, es, roles, s8)) for f in fs]
     for f, _ in out:
         if "cross_pairs_within_reach" in f:
             f["cross_pairs_within_reach"] = f["cross_pairs_within_reach"][:10]
